@@ -70,7 +70,7 @@ class MethodSpec:
         elif self.typed_recv:
             recv = "self: &%sSelf" % ((self.self_lt + " ") if self.self_lt else "")
         ps = [recv] + [p.decl() for p in self.params]
-        return "%sfn %s%s(%s)%s%s" % ("async " if self.is_async else "", self.name, self.generics_text(), ", ".join(ps), self.ret_text(), self.mwhere)
+        return "%s%sfn %s%s(%s)%s%s" % ("async " if self.is_async else "", "unsafe " if getattr(self, "unsafe_fn", False) else "", self.name, self.generics_text(), ", ".join(ps), self.ret_text(), self.mwhere)
 
     def logged(self):
         out = []
@@ -222,7 +222,9 @@ class TraitSpec:
             L += ["    " + g for pos, g in self.ghosts if pos == i]
             for a in m.attrs:
                 L.append("    " + a)
-            L.append("    " + m.trait_sig() + ";")
+            # (a provided method: entrait re-emits it without its body - K1a - so every provider implements it anyway; what
+            # `Impl<T>` runs must be the provider's method, never this body)
+            L.append("    " + m.trait_sig() + (" { ::core::panic!(\"the default body of %s ran\") }" % m.name if getattr(m, "provided", False) else ";"))
         L += ["    " + g for pos, g in self.ghosts if pos >= len(self.methods)]
         for it in self.extra_items:
             L.append("    " + it)
